@@ -432,7 +432,7 @@ def _jobs_for(prop, tier):
     if prop == 'C01':
         return jobs_c01(tier) + jobs_carry(tier) + jobs_numpy_getitem(tier) + jobs_option_getitem(tier) + jobs_ellipsis(tier) + jobs_missing(tier) + jobs_advanced(tier) + jobs_getitem_entry(tier)
     if prop == 'C05':
-        return jobs_c05(tier) + [j for j in jobs_option_below(tier) if j[1][3] in ('num', 'localindex')] + jobs_flatten(tier) + jobs_axis0(tier, 'localindex') + jobs_record_below(tier, ('num', 'localindex')) + jobs_axis_through_record(tier, ('num', 'localindex')) + [(h_union_flatten, (), 1800)]
+        return jobs_c05(tier) + [j for j in jobs_option_below(tier) if j[1][3] in ('num', 'localindex')] + jobs_flatten(tier) + jobs_axis0(tier, 'localindex') + jobs_record_below(tier, ('num', 'localindex')) + jobs_axis_through_record(tier, ('num', 'localindex')) + [(h_union_flatten, (), 1800), (h_union_flatten_mixed, (False,), 1800), (h_union_flatten_mixed, (True,), 1800)]
     if prop == 'C09':
         return jobs_c09(tier) + [j for j in jobs_option_below(tier) if j[1][3] in ('rpad', 'rpad_and_clip')] + jobs_simplify(tier) + jobs_fillna(tier) + jobs_bytemask(tier) + jobs_record_below(tier, ('rpad', 'rpad_and_clip')) + jobs_axis_through_record(tier, ('rpad', 'rpad_and_clip'))
     if prop == 'C11':
@@ -5811,3 +5811,85 @@ def h_union_flatten():
         return akrun_check(prog, [1, True, [7], 2], 'flatten(axis=1) of a union of lists [[1, true], [2]] (union-type elements) and [[[7]]]')
     return mdischarge(nc.m, 'UnionArray8_64::offsets_and_flattened over a list of union-type elements', obls, [], replay=replay, prefer=[lenA <= 8, lenB <= 8, lenC <= 8],
                       extra=dict(bounds='one fixed shape: union entries (list1[0], list2[0], list1[1]); list1 = lists (2, 1) over a union of two opaque contents; list2 = one list over a third; origins and content lengths symbolic'))
+
+
+@guard
+def h_union_flatten_mixed(deep_first):
+    """UnionArray8_64::offsets_and_flattened(axis=-1) of a union whose contents differ in depth (lists of numbers / lists of lists of numbers; the
+    deeper content first or second in the union): a negative axis counts from the leaves of each branch, so an entry of the shallow content
+    dissolves into its numbers while an entry of the deep content stays one entry whose inner lists are merged.  Offsets: one per entry of the
+    union, counting what each entry contributes"""
+    nc = NodeCtx(['UNI', 'LOA', 'IA', 'IDX', 'CNT', 'UTL', 'KD', 'IDS', 'EA', 'NA'], [], unwind=30)
+    BASE = 1 << 32
+    kk = z3.BitVec('k!', 64)
+    lenA, lenB = nc.lencontent, nc.m.bv('lencontentB')
+    pA = nc.content0
+    nc.m.assume(lenA <= 2 ** 20, lenB <= 2 ** 20)
+    pB = nc.new_content_in(nc.m.mem, 'content_B', lenB, z3.Lambda([kk], kk + BASE), const=True)
+    nc.m.eng.stubs['vf$slot%d' % nc.slot('9mergeableERKSt10shared_ptr')] = lambda eng, fr, ins, st, name, argv: z3.BitVecVal(0, 1)
+    nc.m.eng.stubs['_ZNK7awkward17ListOffsetArrayOfIlE9mergeableE*'] = lambda eng, fr, ins, st, name, argv: z3.BitVecVal(0, 1)
+    nc.m.eng.stubs['vf$slot%d' % nc.slot('14purelist_depthEv')] = lambda eng, fr, ins, st, name, argv: BV(1)
+    nc.m.eng.stubs['vf$slot%d' % nc.slot('12minmax_depthEv')] = lambda eng, fr, ins, st, name, argv: [BV(1), BV(1)]
+    nc.m.eng.stubs['vf$slot%d' % nc.slot('12branch_depthEv')] = lambda eng, fr, ins, st, name, argv: [z3.BitVecVal(0, 8), BV(1)]
+    nc.m.eng.stubs.update(string_stubs(nc))
+
+    def s_identities(eng, fr, ins, st, name, argv):        # the opaque contents carry no identities
+        rec = st.mem.o[argv[0].obj]
+        rec.cells[argv[0].off] = (NULL, 8); rec.cells[argv[0].off + 8] = (NULL, 8)
+        return None
+    nc.m.eng.stubs['vf$slot%d' % nc.slot('7Content10identitiesEv')] = s_identities
+    shallow, listsS, offsS = build_listoffset64(nc, [2, 1], name='shallow')               # [[a0, a1], [a2]]
+    nc.content0, nc.lencontent = pB, lenB
+    inner, listsI, offsI = build_listoffset64(nc, [2, 1], name='inner')                   # [[b0, b1], [b2]]
+    listsI = [[Elem(z3.simplify(e.val + BASE)) for e in lst] for lst in listsI]
+    nc.content0, nc.lencontent = inner, BV(2)
+    deep, listsD, offsD = build_listoffset64(nc, [2], name='deep')                        # [[[b0, b1], [b2]]]
+    nc.content0, nc.lencontent = pA, lenA
+    contents = [deep, shallow] if deep_first else [shallow, deep]
+    s_tag, d_tag = (1, 0) if deep_first else (0, 1)
+    tags_c = (s_tag, d_tag, s_tag)                                                         # entries: shallow[0], deep[0], shallow[1]
+    bounds = [BV(1), BV(2)] if deep_first else [BV(2), BV(1)]
+    outer, oidx = build_union8_64(nc, tags_c, contents, 'node', bounds)
+    for t, v in zip(oidx, (0, 0, 1)):
+        nc.m.assume(t == v)
+    nc.m.record('ret', {})
+    def replay(model, ent):
+        A = 'i64 3 1 2 3 listoffset64 3 0 2 3 '
+        B = 'i64 3 4 5 6 listoffset64 3 0 2 3 listoffset64 2 0 2 '
+        prog = (B + A if deep_first else A + B) + 'union8_64 3 %d %d %d 0 0 1 2 flatten -1' % tags_c
+        return akrun_check(prog, [1, 2, [4, 5, 6], 3], 'flatten(axis=-1) of the union [[1, 2], [[4, 5], [6]], [3]] (%s content first)' % ('deep' if deep_first else 'shallow'))
+    unit = 'UnionArray8_64::offsets_and_flattened axis=-1 over contents of different depth (%s first)' % ('deep' if deep_first else 'shallow')
+    try:
+        out = nc.m.call('_ZNK7awkward12UnionArrayOfIalE21offsets_and_flattenedEll', [Ptr('ret', 0), outer, BV(-1), BV(0)])
+    except Unsupported as err:
+        if 'no feasible path' not in str(err):
+            raise
+        # every path ends in an access the engine refuses to follow (its own memory-safety obligations say which): they are discharged and replayed
+        return mdischarge(nc.m, unit, [('the call comes back (returns or raises)', z3.BoolVal(True))], [], replay=replay, prefer=[lenA <= 8, lenB <= 8],
+                          extra=dict(bounds='one fixed shape: entries (shallow[0], deep[0], shallow[1]); origins and leaf lengths symbolic'))
+    obls = [('offsets_and_flattened does not raise', out.raised)]
+    try:
+        offs, _ = nc.index_terms(out.mem, Ptr('ret', 0), 'returned offsets')
+    except (Unsupported, KeyError) as err:
+        offs = None
+        obls.append(('offsets that can be read back (%s)' % str(err)[:60], z3.Not(out.raised)))
+    if offs is not None:
+        if len(offs) != 4:
+            obls.append(('one offset per entry of the union and one more (%d returned)' % len(offs), z3.BoolVal(True)))
+        else:
+            for i, (a, w) in enumerate(zip(offs, (0, 2, 3, 4))):
+                obls.append(('offsets[%d] counts what the entries before contribute' % i, a != w))
+    want = [listsS[0][0], listsS[0][1], listsI[0] + listsI[1], listsS[1][0]]
+    try:
+        cases = list(nodeh.decode_cases(nc, out.mem, nc.m.cell('ret', 56)))
+    except (Unsupported, KeyError, TypeError) as err:
+        cases = []
+        obls.append(('a flattened content that can be read back (%s)' % str(err)[:60], z3.Not(out.raised)))
+    for g, res in cases:
+        if res is None:
+            obls.append(('a result is returned', z3.And(g, z3.Not(out.raised))))
+        else:
+            obls += [(nm, z3.And(g, c)) for nm, c in nodeh.compare_value(res, want, strict=True)]
+
+    return mdischarge(nc.m, unit, obls, [], replay=replay,
+                      prefer=[lenA <= 8, lenB <= 8], extra=dict(bounds='one fixed shape: entries (shallow[0], deep[0], shallow[1]); origins and leaf lengths symbolic'))
